@@ -71,7 +71,20 @@ type Tree struct {
 	Emb
 	Un     *Tree // usually left unmarked
 	Leaves []Leaf
+	St     Stamp  // a struct type with methods (MarshalText, String): still a struct to descend into
+	PSt    *Stamp
 }
+
+// Stamp is a struct type that implements encoding.TextMarshaler and
+// fmt.Stringer with value receivers (many domain types do): it is an ordinary
+// nested struct for the validator.
+type Stamp struct {
+	Label string
+	N     int
+}
+
+func (s Stamp) MarshalText() ([]byte, error) { return []byte(s.Label), nil }
+func (s Stamp) String() string               { return "stamp:" + s.Label }
 
 // SetHidden fills the unexported field (so that "unexported fields are never
 // validated" is tested with violating content).
@@ -112,6 +125,25 @@ var NamedScalars = map[string]reflect.Type{
 	"float32": reflect.TypeOf(MyF32(0)), "float64": reflect.TypeOf(MyF64(0)), "bool": reflect.TypeOf(MyBool(false)),
 }
 
+// itemA and itemB return two DISTINCT struct types that print alike
+// ("lib.Item"): types declared in different function scopes (the same happens
+// with equally named types of two packages that share their base name).
+func itemA() reflect.Type {
+	type Item struct {
+		Name string `valid:"required|item name"`
+		N    int    `valid:"ge=2|item n"`
+	}
+	return reflect.TypeOf(Item{})
+}
+
+func itemB() reflect.Type {
+	type Item struct {
+		Name string `valid:"required|item name"`
+		N    int    `valid:"ge=2|item n"`
+	}
+	return reflect.TypeOf(Item{})
+}
+
 // Types is the registry name -> type.
 var Types = map[string]reflect.Type{
 	"Leaf":  reflect.TypeOf(Leaf{}),
@@ -120,4 +152,7 @@ var Types = map[string]reflect.Type{
 	"Tree":  reflect.TypeOf(Tree{}),
 	"Emb":   reflect.TypeOf(Emb{}),
 	"Multi": reflect.TypeOf(Multi{}),
+	"Stamp": reflect.TypeOf(Stamp{}),
+	"ItemA": itemA(),
+	"ItemB": itemB(),
 }
